@@ -421,6 +421,12 @@ def build_func(space, sd, fd, geo=None):
             f = S.ScalingFunctional(space, s)
         ref = R.QuadraticForm(geo, None, np.array([s]), 0.0)
         return leaf(f, ref)
+    if cls == 'LinearForm':
+        # the genuinely linear functional x -> <v, x>
+        vec_, vflat = _opt_vec(space, fd['vector'])
+        return leaf(S.QuadraticForm(vector=vec_),
+                    R.QuadraticForm(geo, None, vflat, 0.0),
+                    region={'quad': 'vec'})
     if cls == 'QuadraticForm':
         od = fd.get('op')
         vec, vflat = _opt_vec(space, fd.get('vector'))
@@ -498,14 +504,16 @@ def build_func(space, sd, fd, geo=None):
         if c.f.is_linear and s < 0:
             # Functional.__mul__ turns f * s into s * f for linear f
             region['linneg'] = 1
-        return node(f, ref, [c], lambda x: c.value(s * x), region=region)
+        return node(f, ref, [c], lambda x: c.value(s * x), region=region,
+                    extra={'s': s})
     if cls == 'rightvec':
         c = child()
         v = _vec(space, fd['v'])
         vf = _flatv(space, v)
         f = c.f * v
         ref = None if rv(c) is None else R.RightVec(rv(c), vf)
-        return node(f, ref, [c], lambda x: c.value(v * x))
+        return node(f, ref, [c], lambda x: c.value(v * x),
+                    extra={'v': v, 'vf': vf})
     if cls == 'scalarsum':
         c = child()
         k = float(fd['c'])
@@ -518,7 +526,8 @@ def build_func(space, sd, fd, geo=None):
         tf = _flatv(space, t)
         f = c.f.translated(t)
         ref = None if rv(c) is None else R.Translation(rv(c), tf)
-        return node(f, ref, [c], lambda x: c.value(x - t))
+        return node(f, ref, [c], lambda x: c.value(x - t),
+                    extra={'t': t, 'tf': tf})
     if cls == 'quadperturb':
         c = child()
         a = float(fd.get('a', 0.0))
@@ -898,14 +907,15 @@ def leaf_funcs(draw, sd, purpose, top=True, full=False):
                     'KL', 'KLConj', 'KLCE', 'KLCEConj', 'IndicatorLpUnitBall',
                     'IndicatorZero', 'Constant', 'Zero', 'QuadraticForm',
                     'IndicatorBox', 'IndicatorNonnegativity',
-                    'L1Norm', 'L2NormSquared', 'Huber', 'KL', 'QuadraticForm']
+                    'L1Norm', 'L2NormSquared', 'Huber', 'KL', 'QuadraticForm',
+                    'LinearForm']
             if top:
                 pool += ['IndicatorSimplex', 'IndicatorSumConstraint']
         else:
             pool = ['L1Norm', 'L2Norm', 'L2NormSquared', 'Huber', 'KL',
                     'KLConj', 'KLCE', 'KLCEConj', 'Constant', 'Zero',
                     'QuadraticForm', 'QuadraticForm', 'L2NormSquared',
-                    'Huber']
+                    'Huber', 'LinearForm', 'LinearForm']
             if top:
                 pool += ['LpNorm']
     elif sk == 'power':
@@ -913,11 +923,11 @@ def leaf_funcs(draw, sd, purpose, top=True, full=False):
             pool = ['GroupL1Norm', 'GroupL1Norm', 'IndicatorGroupL1UnitBall',
                     'Huber', 'L2NormSquared', 'L1Norm', 'L2Norm',
                     'sepsum_power', 'IndicatorZero', 'Constant',
-                    'QuadraticForm']
+                    'QuadraticForm', 'LinearForm']
         else:
             pool = ['GroupL1Norm', 'GroupL1Norm', 'Huber', 'L2NormSquared',
                     'L1Norm', 'L2Norm', 'sepsum_power', 'Constant',
-                    'QuadraticForm']
+                    'QuadraticForm', 'LinearForm']
     elif sk == 'matrix':
         pool = (['NuclearNorm', 'NuclearNorm',
                  'IndicatorNuclearNormUnitBall', 'L2NormSquared']
@@ -966,6 +976,8 @@ def leaf_funcs(draw, sd, purpose, top=True, full=False):
     if cls == 'IndicatorBox':
         return {'cls': cls, 'lower': draw(_bound_desc(n, True)),
                 'upper': draw(_bound_desc(n, False))}
+    if cls == 'LinearForm':
+        return {'cls': cls, 'vector': draw(vec(n, nz_values()))}
     if cls == 'QuadraticForm':
         return draw(quadratic_forms(sd, n, allow_known_bad=top,
                                     for_conj=(purpose == 'conj')))
@@ -1068,11 +1080,99 @@ def op_descs(draw, sd, n, top):
     raise HarnessError(k)
 
 
+def scal_chain():
+    """Argument scalings that are neither 0 nor 1."""
+    return st.sampled_from([2.0, -0.5, 3.0, -1.0, -2.5, 0.25, 1.5, 0.5,
+                            -2.0])
+
+
+@st.composite
+def linear_descs(draw, sd, purpose):
+    """A functional that ODL flags as linear (and that is linear): <v, .>,
+    scalar multiples / sums of such, compositions with linear operators,
+    ScalingFunctional / IdentityFunctional on the field."""
+    sk = space_kind(sd)
+    n = space_dim(sd)
+    if sk == 'field':
+        return draw(leaf_funcs(sd, purpose))
+    lin = {'cls': 'LinearForm', 'vector': draw(vec(n, nz_values()))}
+    kinds = ['leaf', 'leaf', 'leftscal']
+    if purpose == 'grad':
+        kinds += ['sum']
+        if sk in ('rn', 'discr'):
+            kinds += ['comp']
+    k = draw(st.sampled_from(kinds))
+    if k == 'leftscal':
+        s = draw(scal_pos()) if purpose == 'conj' else draw(scal_chain())
+        return {'cls': 'leftscal', 's': s, 'f': lin}
+    if k == 'sum':
+        return {'cls': 'sum', 'f': lin,
+                'g': {'cls': 'LinearForm',
+                      'vector': draw(vec(n, nz_values()))}}
+    if k == 'comp':
+        od = draw(st.sampled_from(['scaling', 'multiply', 'matrix']))
+        if od == 'scaling':
+            op = {'kind': 'scaling', 's': draw(scal_chain())}
+        elif od == 'multiply' or sd['kind'] != 'tensor' or \
+                len(sd['shape']) != 1:
+            op = {'kind': 'multiply', 'v': draw(vec(n, nz_values()))}
+        else:
+            M = draw(st.lists(st.sampled_from([0.0, 1.0, -1.0, 0.5, 2.0]),
+                              min_size=n * n, max_size=n * n))
+            op = {'kind': 'matrix', 'ran': None,
+                  'M': np.asarray(M).reshape(n, n).tolist()}
+        return {'cls': 'comp', 'op': op, 'f': lin}
+    return lin
+
+
+@st.composite
+def chain_descs(draw, sd, purpose, depth):
+    """Three-step derivations around an argument scaling: translation ->
+    scaling, scaling -> translation, (f + c) -> scaling, linear/constant
+    perturbation -> scaling; the innermost functional is linear in half of
+    the cases (the arithmetic takes short-cuts for functionals flagged
+    linear)."""
+    sk = space_kind(sd)
+    n = space_dim(sd)
+    if sk == 'field' or draw(st.booleans()):
+        inner = draw(linear_descs(sd, purpose))
+    else:
+        inner = draw(func_descs(sd, purpose, max(depth - 2, 0), top=False,
+                                full=(purpose == 'grad')))
+    s = draw(scal_chain())
+    if purpose == 'conj':
+        s = abs(s)
+    chains = ['trans-scale', 'scale-trans', 'sum-scale']
+    if sk != 'field':
+        chains += ['pert-scale']
+    ch = draw(st.sampled_from(chains))
+    t = draw(vec(n, nz_values()))
+    if ch == 'trans-scale':
+        return {'cls': 'rightscal', 's': s, 'chain': ch,
+                'f': {'cls': 'translated', 't': t, 'f': inner}}
+    if ch == 'scale-trans':
+        return {'cls': 'translated', 't': t, 'chain': ch,
+                'f': {'cls': 'rightscal', 's': s, 'f': inner}}
+    if ch == 'sum-scale':
+        return {'cls': 'rightscal', 's': s, 'chain': ch,
+                'f': {'cls': 'scalarsum',
+                      'c': draw(st.sampled_from([1.0, -2.5, 0.5, 3.0])),
+                      'f': inner}}
+    return {'cls': 'rightscal', 's': s, 'chain': ch,
+            'f': {'cls': 'quadperturb', 'a': 0.0,
+                  'u': draw(st.one_of(st.none(), vec(n))),
+                  'c': draw(st.sampled_from([0.0, 1.0, -0.5, 0.0])),
+                  'f': inner}}
+
+
 @st.composite
 def func_descs(draw, sd, purpose, depth, top=True, full=False):
     """Functional descriptor on ``sd`` of expression depth <= ``depth``."""
     sk = space_kind(sd)
     n = space_dim(sd)
+    if top and depth >= 2 and sk != 'product' and \
+            draw(st.integers(0, 3 if sk != 'field' else 1)) == 0:
+        return draw(chain_descs(sd, purpose, depth))
     if depth <= 0 or sk in ('field',) or draw(st.integers(0, 3)) == 0:
         return draw(leaf_funcs(sd, purpose, top=top, full=full))
     if sk == 'product':
@@ -1190,7 +1290,7 @@ def product_space_with_funcs(draw, purpose):
 def is_linear_desc(fd):
     """Descriptor of a functional that ODL flags as linear."""
     c = fd['cls']
-    if c == 'Zero' or c in ('Scaling', 'Identity'):
+    if c in ('Zero', 'Scaling', 'Identity', 'LinearForm'):
         return True
     if c == 'Constant':
         return float(fd['constant']) == 0
